@@ -781,10 +781,10 @@ Proof.
 Qed.
 
 (* ---- the whole correspondence matrix, inside the model ---- *)
-Definition all_ops := [KSr; KSm; KEn; KRi; KRm; KRt; KCa; KAx].
+Definition all_ops := [KSr; KSm; KEn; KRi; KRm; KRt; KCa; KAx; KCall false; KCall true].
 Definition all_reasons := [RPaused; RWindow; RSlot; RSilent].
 Definition all_events := [VRst; VGoaway; VGarbage; VLost; VClose; VSerr].
-Definition all_statuses := [StNone; StH503; StTonly 7; StTrailers 5; StTrailers 0].
+Definition all_statuses := [StNone; StH503; StTonly 7; StTrailers 5; StTrailers 0; StH200; StH200Msg].
 Definition all_variants := [VaBase; VaImplicit; VaAfterHeaders].
 Definition bools := [false; true].
 
@@ -810,7 +810,7 @@ Definition expected_ctx (c : cell) : outcome :=
   match c_status c with
   | StH503 => OGrpc 14
   | StTonly k | StTrailers k => if Z.eqb k 0 then OTerminated else OGrpc k
-  | StNone => OTerminated
+  | StNone | StH200 | StH200Msg => OTerminated
   end.
 
 (* a cell that asks for recv_initial_metadata after it has been received: the call is refused *)
@@ -849,8 +849,9 @@ Proof.
   apply Z.eqb_eq in H. congruence.
 Qed.
 
-(* Over the complete matrix operation(8) x reason(4) x event(6) x order(2) x deadline(2) x
-   status-already-arrived(5) x variant(3) = 11520 cells, computed with the GENERATED operations: every
+(* Over the complete matrix operation(10: the 7 operations, the context exit, the stub-style call
+   with a unary / streaming request) x reason(4) x event(6) x order(2) x deadline(2) x
+   status-already-arrived(7) x variant(3) = 20160 cells, computed with the GENERATED operations: every
    path the interpreter selects is one of the syntactic paths the theorems quantify over, and in every
    cell that can be set up:  the operation is still pending at quiescence EXACTLY in the D6 class (the
    context exit is then pending too, and only a deadline ends it);  otherwise the operation ends with a
